@@ -51,6 +51,9 @@ def container(strs, kind):
     return pd.Series(list(strs), index=[7 * i + 2 for i in range(len(strs))], dtype=object)
 
 
+_METRICS = {}
+
+
 def replay_doc(ctx, doc, n, letters):
     import pyrepseq as prs
     from pyrepseq.metric import Levenshtein, WeightedLevenshtein
@@ -59,7 +62,10 @@ def replay_doc(ctx, doc, n, letters):
     w = doc["w"]
     rp = dict(kind="replay", doc=doc, letters=letters)
     cont = ("list", "ndarray", "series")[n % 3]
-    metric = Levenshtein() if w == [1, 1, 1] and n % 2 else WeightedLevenshtein(w[0], w[1], w[2])
+    key = (tuple(w), w == [1, 1, 1] and n % 2)
+    if key not in _METRICS:           # the same metric object serves many calls
+        _METRICS[key] = Levenshtein() if key[1] else WeightedLevenshtein(w[0], w[1], w[2])
+    metric = _METRICS[key]
     name = type(metric).__name__ + (str(tuple(w)) if w != [1, 1, 1] else "")
 
     def viol(key, what):
